@@ -374,6 +374,79 @@ func c04Phase(c *vk.Ctx, r *rand.Rand, natTimeout time.Duration, expiry bool) bo
 		}
 		c.Count("unsolicited_delivered_to_owner_only", 1)
 	}
+	// young associations (exactly ONE datagram sent, to a non-DNS port): the first datagram to come
+	// back is a stray one from port 53 of a host the client never addressed; then the target answers
+	// with a datagram too large to be relayed (it no longer fits once encrypted), then with a small
+	// one. The association is alive all along: the outbound address stays, the datagrams that fit
+	// are delivered.
+	for yi := 0; yi < 3; yi++ {
+		k := keys[r.Intn(len(keys))]
+		cl, err := newUDPClient(net.IPv4(198, 51, 100, byte(220+yi)).To4(), 0, k)
+		if err != nil {
+			continue
+		}
+		stray, err := NewUDPEnd(net.IPv4(45, 66, byte(c.Batch), byte(53+yi)).To4(), 53)
+		if err != nil {
+			cl.Close()
+			c.Note("cannot bind a port-53 sender: %v", err)
+			continue
+		}
+		tgt := w.targets[0]
+		id := nextID(c.Batch)
+		cl.Send(ssUDP(k, randBytes(r, k.Codec().C.SaltSize), tgt.addr(), mkUDPPayload(id, 0, 0, 24)), w.rig.Addr4())
+		g, ok := tgt.waitID(id, udpB)
+		if !ok {
+			c.Violation("C04/valid-datagram-not-forwarded", map[string]any{"client": cl.Addr.String(), "phase": "young association"})
+			return false
+		}
+		_, src, _ := net.SplitHostPort(g.From)
+		ua, _ := net.ResolveUDPAddr("udp", "203.0.113.77:"+src)
+		steps := []struct {
+			what   string
+			sender *UDPEnd
+			size   int
+			must   bool
+		}{
+			{"stray datagram from port 53 of a third party (first datagram the association receives)", stray, 40, true},
+			{"small datagram from the addressed target", tgt.UDPEnd, 60, true},
+			{"datagram from the target that cannot fit once encrypted", tgt.UDPEnd, 65453 + r.Intn(17), false},
+			{"small datagram from the target after the oversized one", tgt.UDPEnd, 80, true},
+		}
+		for si, st := range steps {
+			pid := nextID(c.Batch)
+			p := replyPayload(pid, 1, st.size)
+			st.sender.Send(p, ua)
+			c.Eval(fmt.Sprintf("young-association|step=%d", si))
+			if !st.must {
+				time.Sleep(20 * time.Millisecond)
+				continue
+			}
+			d, ok := cl.waitReply(k, pid|1<<56, udpB)
+			if !ok {
+				c.Violation("C04/datagram-to-outbound-address-not-delivered-to-its-client", map[string]any{"owner": cl.Addr.String(), "sender": st.sender.Addr.String(), "what": st.what, "history": "one client datagram to " + tgt.Addr.String() + ", then: " + steps[0].what})
+				return false
+			}
+			if !bytes.Equal(d.Payload, p) || net.JoinHostPort(d.Host, fmt.Sprint(d.Port)) != st.sender.Addr.String() {
+				c.Violation("C04/unsolicited-datagram-altered", map[string]any{"got_from": net.JoinHostPort(d.Host, fmt.Sprint(d.Port)), "sender": st.sender.Addr.String()})
+				return false
+			}
+		}
+		// and the client still leaves from the same outbound address
+		id2 := nextID(c.Batch)
+		cl.Send(ssUDP(k, randBytes(r, k.Codec().C.SaltSize), tgt.addr(), mkUDPPayload(id2, 0, 0, 24)), w.rig.Addr4())
+		g2, ok := tgt.waitID(id2, udpB)
+		if !ok {
+			c.Violation("C04/valid-datagram-not-forwarded", map[string]any{"client": cl.Addr.String(), "phase": "young association, second datagram"})
+			return false
+		}
+		if _, src2, _ := net.SplitHostPort(g2.From); src2 != src || len(w.rig.Rec.ByClient(cl.Addr.String())) != 1 {
+			c.Violation("C04/one-client-several-outbound-addresses-in-one-association", map[string]any{"client": cl.Addr.String(), "outbound_before": src, "outbound_after": src2, "associations": len(w.rig.Rec.ByClient(cl.Addr.String())), "history": "stray port-53 datagram and an oversized reply in between (association timeout 30 s not reached)"})
+			return false
+		}
+		c.Count("young_associations_survive_strays_and_oversized_replies", 1)
+		stray.Close()
+		cl.Close()
+	}
 	// two clients with the same link-local IP and port on different interfaces (they differ only
 	// by zone) are different client addresses: two associations, two outbound sockets
 	if a0, a1, err := lab.LinkLocal(); err == nil {
@@ -539,6 +612,7 @@ func init() {
 		Timeout:     func(t string) time.Duration { return 25 * time.Minute },
 		Run: func(c *vk.Ctx) {
 			c.Require("stable_phases")
+			c.Require("young_associations_survive_strays_and_oversized_replies")
 			c.Require("expiry_phases")
 			c.Require("unsolicited_delivered_to_owner_only")
 			c.Require("no_association_for_rejected_first_datagram")
